@@ -275,8 +275,16 @@ class SSHKnownHosts:
             x509_subjects, revoked_subjects = self._match(host, addr, port)
 
         if port and not (host_keys or ca_keys or x509_certs or x509_subjects):
-            host_keys, ca_keys, revoked_keys, x509_certs, revoked_certs, \
-                x509_subjects, revoked_subjects = self._match(host, addr)
+            # Fall back to the entries listed without a port, but keep
+            # what was revoked for this specific port
+            host_keys, ca_keys, fb_revoked_keys, x509_certs, \
+                fb_revoked_certs, x509_subjects, fb_revoked_subjects = \
+                    self._match(host, addr)
+
+            revoked_keys = list(revoked_keys) + list(fb_revoked_keys)
+            revoked_certs = list(revoked_certs) + list(fb_revoked_certs)
+            revoked_subjects = list(revoked_subjects) + \
+                list(fb_revoked_subjects)
 
         return (host_keys, ca_keys, revoked_keys, x509_certs, revoked_certs,
                 x509_subjects, revoked_subjects)
